@@ -97,6 +97,21 @@ static TREE_SEQ: AtomicUsize = AtomicUsize::new(0);
 impl TempTree {
     fn new() -> TempTree {
         let n = TREE_SEQ.fetch_add(1, Ordering::SeqCst);
+        // remove trees left behind by a run that was killed (owner pid no longer alive)
+        static STALE: std::sync::Once = std::sync::Once::new();
+        STALE.call_once(|| {
+            if let Ok(rd) = fs::read_dir(std::env::temp_dir()) {
+                for e in rd.flatten() {
+                    let name = e.file_name().to_string_lossy().into_owned();
+                    if let Some(rest) = name.strip_prefix("vh-c16-") {
+                        let pid = rest.split('-').next().unwrap_or("");
+                        if !pid.is_empty() && pid.bytes().all(|b| b.is_ascii_digit()) && !Path::new("/proc").join(pid).exists() {
+                            let _ = fs::remove_dir_all(e.path());
+                        }
+                    }
+                }
+            }
+        });
         let base = std::env::temp_dir().join(format!("vh-c16-{}-{}", std::process::id(), n));
         let _ = fs::remove_dir_all(&base);
         let root = base.join("root");
@@ -1051,6 +1066,18 @@ fn gen(ctx: &Ctx) -> Vec<String> {
             _ => format!("bytes={}-{}", a.min(b), a.max(b)),
         };
         cases.push(s_case(if rng.chance(1, 2) { "s" } else { "-" }, "GET", &format!("/{}", f), &format!("r={}", hex(r.as_bytes()))));
+    }
+    // windows longer than one chunk that end before the end of the file (second read must be short)
+    for _ in 0..ctx.budget(60) {
+        let size = 65536 + 1 + rng.below(3000) as u64;
+        let start = rng.below((70000 - size) as usize) as u64;
+        let r = format!("bytes={}-{}", start, start + size - 1);
+        cases.push(s_case(if rng.chance(1, 2) { "s" } else { "-" }, "GET", "/big.bin", &format!("r={}", hex(r.as_bytes()))));
+        let len = 140000u64;
+        let size = 65536 + 1 + rng.below(70000) as u64;
+        let start = rng.below((len - size) as usize) as u64;
+        let r = format!("bytes={}-{}", start, start + size - 1);
+        cases.push(format!("T len={} cut={} r={}", len, len, hex(r.as_bytes())));
     }
     // T: file truncated between into_response and the body read
     for &(len, cut) in &[(10usize, 10usize), (10, 9), (10, 5), (10, 0), (1, 0), (0, 0), (70000, 70000), (70000, 69999), (70000, 65537), (70000, 65536), (70000, 65535), (70000, 1), (70000, 0), (131072, 65536), (131073, 131072)] {
